@@ -566,6 +566,17 @@ pub fn guard(section: &str, key: &str, payload: &str) {
         c.2.push_str(payload);
     }
 }
+static HANG_LIMIT_SECS: AtomicU64 = AtomicU64::new(30);
+
+/// Seconds without a heartbeat after which the worker declares a hang.  Checks
+/// whose single cases are legitimately long (C14 limit programs) raise it.
+pub fn set_hang_limit(secs: u64) {
+    HANG_LIMIT_SECS.store(secs, Ordering::Relaxed);
+}
+pub fn hang_limit() -> u64 {
+    HANG_LIMIT_SECS.load(Ordering::Relaxed)
+}
+
 pub fn beat() {
     BEAT.fetch_add(1, Ordering::Relaxed);
 }
